@@ -13,7 +13,7 @@ CFG = {
     "engine": "E4 probes (probe-threads, 3 link modes x debug/release) + E5 strace injection",
     "package": "c05", "bin": "c05",
     "pre": _pre,
-    "profiles": ["release"], "workers": 12,
+    "profiles": ["release"], "workers": 12,   # the driver only orchestrates; the code under test lives in the six probe builds
     "technique": ("property-based testing of a no-libc probe process (generated batches of thread specs, all random choices made by the driver) "
                   "against a tag-derived reference model, plus complete enumeration of single syscall failures (stack mmap, clone) by strace injection "
                   "with a definitive-deadlock watchdog"),
@@ -22,7 +22,7 @@ CFG = {
              "child pre-delay and parent pre-join delay in {0, spin 10^3..10^6, nanosleep <= 2 ms}, disposition join | keep until the end then join | drop now | "
              "drop later | drop while finishing, carried out inline or after all spawns. Oracle per spec: run counter exactly 1 once every thread is gone; "
              "join returns Some(value whose FNV-1a hash and length equal the reference for the tag) or None exactly for panicking specs; the heap buffer the "
-             "closure fills hashes to the reference right after join. Sub-check fault: on 4 fixed batches (1, 4, 6, 8 threads) every stack mmap (ENOMEM) and every "
+             "closure fills hashes to the reference right after join. Sub-checks fault-min (the one-thread batch, so that its replay is minimal) and fault: on 4 fixed batches (1, 4, 6, 8 threads) every stack mmap (ENOMEM) and every "
              "clone (EAGAIN, ENOMEM) is failed once (strace -e inject=...:when=K; the log confirms which call was hit): spawn must return Err with the closure never "
              "run, or a handle whose join returns; a probe whose every thread is parked in an untimed futex(FUTEX_WAIT) twice 200 ms apart is a definitive deadlock "
              "(violation), any other overrun is inconclusive. A share of the random cases runs under strace to label join-before-finish / join-after-finish. "
@@ -34,6 +34,6 @@ CFG = {
     "required_classes": ["join:panic-joined-none", "join:over-aligned-result", "join:zero-sized-result", "join:4KiB-result", "join:heap-owning-result",
                          "join:two-or-more-threads-live", "join:handle-dropped", "join-strace:join-before-finish(futex wait entered)",
                          "join-strace:join-after-finish(no futex wait)", "fault:inject clone EAGAIN", "fault:inject clone ENOMEM", "fault:inject stack-mmap ENOMEM",
-                         "fault:stack-mmap-failure-spawn-err"],
+                         "fault:stack-mmap-failure-spawn-err", "fault:clone-failure-spawn-err", "fault-min:clone-failure-spawn-err"],
     "timeout_quick": 600, "timeout_thorough": 7200,
 }
